@@ -228,6 +228,24 @@ def r2_lookup_order(ctx, rep):
     ok = bool(rets) and any(set(w.cond_texts()) >= set(rets[0].cond_texts()) for w in warns) and \
         not any(set(h.cond_texts()) <= set(rets[0].cond_texts()) for h in hrefs)
     rep.ob("unknown target: plain text (no href) plus a warning", ok, "", py.nloc(rets[0].node) if rets else py.nloc(fn))
+    # (f') a kind qualifier that cannot apply ("bound" item of a module, unknown kind word) makes find / find_child raise
+    # ValueError: that is "something that does not exist" and must end as plain text with a warning, so every lookup of the
+    # conversion is protected by a handler (or suppress) for ValueError that does not raise again
+    def contained(e) -> bool:
+        for p in e.protected:
+            if not ("ValueError" in p[1] or "Exception" in p[1] or "BaseException" in p[1]):
+                continue
+            if p[0] == "suppress" or not any(isinstance(x, ast.Raise) for h in p[2].handlers
+                                             if any(t in astq.handler_types(h) for t in ("ValueError", "Exception", "BaseException"))
+                                             for x in ast.walk(h)):
+                return True
+        return False
+    for e in child + pf:
+        ok = contained(e)
+        rep.ob(f"lookup `{e.text()[:50]}` cannot abort the conversion", ok,
+               "an impossible / unknown kind qualifier is reported and the reference stays plain text" if ok else
+               f"`{e.text()[:60]}` lets the ValueError of an impossible kind qualifier escape (or re-raises it): `[[mod:foo(bound)]]` "
+               f"aborts the run instead of being rendered as plain text with a warning", py.nloc(e.node), nontrivial=not ok)
     # (g) the link is relative to the page being converted, external URLs stay absolute
     rel = [e for e in ev if e.kind == "call" and call_name(e.node).split(".")[-1] in ("relpath", "relative_to")]
     ok = any("current_path" in e.text() for e in rel) and any(
